@@ -346,6 +346,7 @@ class C07(MiscProp):
         self.idle_library(ctx)
         self.cli_checks(ctx)
         self.cli_histories(ctx)
+        self.env_independence(ctx)
 
     # ---------------------------------------------------------------- (d) CLI histories over a shared file system
     HIST_RULE = ("(d) CLI histories: sequences of 3..6 real CLI runs (password encrypt, encrypt, key generate) that write to ONE output "
@@ -380,8 +381,8 @@ class C07(MiscProp):
             def P_(pw, pt, dest="o", stream=False):
                 return {"k": "pass", "pw": pw, "pt": pt, "dest": dest, "stream": ctx.rbytes(32 + rng.choice([0, 9])) if stream else None}
 
-            def K_(pt, dest="o", stream=False):
-                return {"k": "key", "pt": pt, "dest": dest, "stream": ctx.rbytes(64 + rng.choice([0, 9])) if stream else None}
+            def K_(pt, dest="o", stream=False, self_=False):
+                return {"k": "key", "pt": pt, "dest": dest, "stream": ctx.rbytes(64 + rng.choice([0, 9])) if stream else None, "self": self_}
 
             def G_(stream=False):
                 return {"k": "gen", "stream": ctx.rbytes(64) if stream else None}
@@ -395,6 +396,9 @@ class C07(MiscProp):
                 [S_("pass-header+junk"), P_(0, 0), S_("header-of-previous"), P_(0, 1), S_("key-header+junk"), K_(0), S_("empty"), P_(1, 0)],
                 [P_(0, 0, dest="stdout"), P_(0, 1), K_(0, dest="stdout"), K_(1), P_(1, 2, dest="stdout"), P_(1, 3)],
                 [P_(0, 0), P_(0, 1, stream=True), P_(1, 1, stream=True), K_(0, stream=True)],
+                # self-addressed (--to and --from name the same key): the same invocation three times, another plaintext, a two-party file in between
+                [K_(0, self_=True), K_(0, self_=True), K_(0, self_=True), K_(1, self_=True), K_(0), K_(0, self_=True), K_(2, self_=True, stream=True)],
+                [K_(1, dest="stdout", self_=True), K_(1, self_=True), P_(0, 1), K_(1, dest="stdout", self_=True), K_(3, self_=True)],
             ]
             for _ in range(12 if full else 3):
                 h = []
@@ -403,7 +407,7 @@ class C07(MiscProp):
                     if c < 5:
                         h.append(P_(rng.randrange(2), rng.randrange(4), dest=rng.choice(["o", "o", "stdout"]), stream=rng.random() < 0.2))
                     elif c < 7:
-                        h.append(K_(rng.randrange(4), dest=rng.choice(["o", "o", "stdout"]), stream=rng.random() < 0.2))
+                        h.append(K_(rng.randrange(4), dest=rng.choice(["o", "o", "stdout"]), stream=rng.random() < 0.2, self_=rng.random() < 0.4))
                     elif c < 8:
                         h.append(G_())
                     else:
@@ -429,7 +433,7 @@ class C07(MiscProp):
                         args = ["password", "encrypt", ptf[st["pt"]], "--env-pass"]
                         env["KESTREL_PASSWORD"] = PWS[st["pw"]]
                     elif st["k"] == "key":
-                        args = ["encrypt", ptf[st["pt"]], "-t", "hist-recipient", "-f", "hist-sender", "-k", kr, "--env-pass"]
+                        args = ["encrypt", ptf[st["pt"]], "-t", "hist-sender" if st.get("self") else "hist-recipient", "-f", "hist-sender", "-k", kr, "--env-pass"]
                         env["KESTREL_PASSWORD"] = pw_s
                     else:
                         args = ["key", "generate", "--env-pass"]
@@ -479,7 +483,7 @@ class C07(MiscProp):
                        "files": "plain_k.bin: %d random bytes each; keyring: hist-sender / hist-recipient" % len(pts[0]),
                        "note": "the steps run in this order in one directory; standard-output results are written to the -o path of the later steps"}
                 ent["inp"] = inp
-                self.ran(ctx, "cli-history/%s%s%s" % (st["k"], "/stream" if st["stream"] is not None else "",
+                self.ran(ctx, "cli-history/%s%s%s" % (st["k"] + ("/self-addressed" if st.get("self") else ""), "/stream" if st["stream"] is not None else "",
                                                        "/over-" + self.describe_before(ent["before"]).split(", ")[1] if ent["before"] is not None else "/new-path"))
                 F = ent["after"]
                 if not self.check(ctx, ent["rc"] == 0 and F is not None, inp, "the CLI run succeeds and leaves the output", "rc=%d %s" % (ent["rc"], ent["stderr"][-200:])):
@@ -496,9 +500,12 @@ class C07(MiscProp):
                     if not self.check(ctx, len(F) == 132 + 32 + len(pts[0]) and F[:4] == PROLOGUE, inp, "a key-encrypted file of %d bytes" % (164 + len(pts[0])), "%d bytes %s" % (len(F), F[:4].hex())):
                         continue
                     ephs.append((F[4:36], hi, si, "output"))
-                    hs_msgs.append((F[4:132], hi, si, inp))
+                    to_sk, to_pk = (s, spk) if st.get("self") else (r, rpk)
+                    hs_msgs.append((F[4:132], hi, si, inp, to_sk, to_pk))
+                    self.check(ctx, F[4:36] not in (spk, rpk), inp, "file bytes 4..36 are a fresh ephemeral public key, never a public key of the keyring",
+                               "bytes 4..36 = %s = the %s's long-term public key" % (F[4:36].hex(), "sender" if F[4:36] == spk else "recipient"))
                     if st["stream"] is not None:
-                        lib.append(("key", st["stream"], pts[st["pt"]]))
+                        lib.append(("key", st["stream"], pts[st["pt"]], to_pk))
                         lib_meta.append((F, inp, "CLI output = library key_encrypt with payload key = stream[0:32], ephemeral = stream[32:64], whatever the output path held before"))
                 else:
                     text = F.decode("utf-8", "replace")
@@ -522,7 +529,7 @@ class C07(MiscProp):
             if isinstance(x, tuple):
                 epk = unhex(xp[k].get("out", "-"))
                 k += 1
-                lines.append("key_enc %s %s %s %s %s %s %s - - -" % (hexs(s), hexs(spk), hexs(rpk), hexs(x[1][32:64]), hexs(epk), hexs(x[1][0:32]), hexs(x[2])))
+                lines.append("key_enc %s %s %s %s %s %s %s - - -" % (hexs(s), hexs(spk), hexs(x[3]), hexs(x[1][32:64]), hexs(epk), hexs(x[1][0:32]), hexs(x[2])))
             else:
                 lines.append(x)
         for (F, inp, what), lr in zip(lib_meta, drv(ctx.bin, lines) if lines else []):
@@ -539,7 +546,7 @@ class C07(MiscProp):
                     self.check(ctx, ent["gen_stream"] == want, ent["inp"], "appended key: private key = stream[0:32], locked with salt = stream[32:64]: %s %s" % want,
                                "%s %s" % ent["gen_stream"])
         # recovered payload keys
-        nd = drv(ctx.bin, ["noise_dec %s %s %s %s" % (hexs(r), hexs(rpk), hexs(PROLOGUE), hexs(m[0])) for m in hs_msgs])
+        nd = drv(ctx.bin, ["noise_dec %s %s %s %s" % (hexs(m[4]), hexs(m[5]), hexs(PROLOGUE), hexs(m[0])) for m in hs_msgs])
         pkeys = []
         for m, x in zip(hs_msgs, nd):
             if self.check(ctx, x["outcome"] == "ok", m[3], "the recipient recovers the payload key from the handshake", x["raw"][:200]):
@@ -1002,6 +1009,16 @@ class C07(MiscProp):
                 add("idle/key-generate", ["key", "generate", "-o", o, "--env-pass"], {"KESTREL_PASSWORD": genpw}, stdin=b"same-name\n", outf=o)
                 add("idle/key-change-pass", ["key", "change-pass", locked["sender-key"], "--env-pass"],
                     {"KESTREL_PASSWORD": pw_s.decode(), "KESTREL_NEW_PASSWORD": newpw})
+                if k < max(6, N // 2):
+                    # self-addressed: --to and --from name the SAME key (backups, notes to self)
+                    o = os.path.join(wd, "i_self_%d.bin" % k)
+                    add("idle/encrypt-self", ["encrypt", ptf, "-t", "sender-key", "-f", "sender-key", "-o", o, "-k", kr, "--env-pass"],
+                        {"KESTREL_PASSWORD": pw_s.decode()}, outf=o)
+            for k in range(K):
+                st = ctx.rbytes(64 + rng.choice([0, 1, 40]))
+                o = os.path.join(wd, "s_self_%d.bin" % k)
+                add("stream/encrypt-self", ["encrypt", ptf, "-t", "sender-key", "-f", "sender-key", "-o", o, "-k", kr, "--env-pass"],
+                    {"KESTREL_PASSWORD": pw_s.decode()}, outf=o, stream=st)
             results = cli_many(jobs)
             by = collections.defaultdict(list)
             for m, (rc, so, se) in zip(meta, results):
@@ -1013,6 +1030,7 @@ class C07(MiscProp):
                 self.check(ctx, rc == 0, inp, "the CLI run succeeds", "rc=%d %s" % (rc, se[-200:]))
             self.cli_stream_oracles(ctx, by, s, spk, rpk, pt, genpw, newpw)
             self.cli_idle_oracles(ctx, by, r, rpk, salt_s, N)
+            self.cli_self_oracles(ctx, by, s, spk, rpk, pt)
         finally:
             shutil.rmtree(wd, ignore_errors=True)
 
@@ -1077,6 +1095,332 @@ class C07(MiscProp):
             want_sk = unhex(cres[k].get("out", "-")).decode()
             k += 1
             self.check(ctx, got_sk == want_sk, m["inp"], "re-locked key uses salt = stream[0:32]: " + want_sk, got_sk)
+
+    # ---------------------------------------------------------------- (f) freshness does not depend on the process environment
+    ENV_RULE = ("(f) environment independence: the names of the environment variables the code under test can read are enumerated on every run — from the "
+                "sources of the working tree (string literals and upper-case constants at env::var / var_os / vars / getenv sites, every KESTREL_* token), from the "
+                "built binaries (KESTREL_* tokens in clidrv, libdrv and the C library) and by TRACING getenv calls of the real CLI and of libdrv while they "
+                "encrypt / generate keys (an LD_PRELOAD shim compiled on the spot) — and for every name that is not documented (KESTREL_PASSWORD, "
+                "KESTREL_NEW_PASSWORD, KESTREL_KEYRING, the harness's KESTREL_VERIF_*) the freshness oracles are repeated with that variable set to: a regular "
+                "file of zero bytes, a large regular file, an empty file, a directory, \"1\", \"0\", \"\": in each such environment 3 identical CLI `encrypt`, "
+                "2 `password encrypt`, 2 `key generate` processes and one libdrv process (3 key_encrypt, 2 noise_encrypt with everything left to the library) "
+                "must still have pairwise distinct ephemeral keys, payload keys, salts and generated keys (runs that refuse to work in such an environment are "
+                "counted, not judged)")
+    rule = rule + " " + ENV_RULE
+    ENV_DOCUMENTED = ("KESTREL_PASSWORD", "KESTREL_NEW_PASSWORD", "KESTREL_KEYRING")
+    ENV_HARNESS_PREFIX = "KESTREL_VERIF_"
+    ENV_SHIM_C = r'''
+#define _GNU_SOURCE
+#include <dlfcn.h>
+#include <fcntl.h>
+#include <string.h>
+#include <unistd.h>
+static char *(*real_getenv)(const char *);
+static char *(*real_secure)(const char *);
+static void note(const char *name) {
+    if (!real_getenv) real_getenv = (char *(*)(const char *))dlsym(RTLD_NEXT, "getenv");
+    const char *log = real_getenv ? real_getenv("KESTREL_VERIF_ENVLOG") : 0;
+    if (log && name) {
+        int fd = open(log, O_WRONLY | O_APPEND | O_CREAT, 0600);
+        if (fd >= 0) { char b[300]; size_t n = strlen(name); if (n > 298) n = 298; memcpy(b, name, n); b[n] = '\n'; (void)!write(fd, b, n + 1); close(fd); }
+    }
+}
+char *getenv(const char *name) { note(name); return real_getenv ? real_getenv(name) : 0; }
+char *secure_getenv(const char *name) {
+    note(name);
+    if (!real_secure) real_secure = (char *(*)(const char *))dlsym(RTLD_NEXT, "secure_getenv");
+    return real_secure ? real_secure(name) : 0;
+}
+'''
+
+    @staticmethod
+    def env_scan_sources(root):
+        """{name: where} — candidate environment variable names in the Rust sources under root"""
+        acc = re.compile(r"\benv::(?:var|var_os|vars|vars_os|remove_var|set_var)\b|\b(?:var_os|vars_os|getenv|secure_getenv)\s*\(|\bvar\s*\(\s*\"")
+        lit = re.compile(r'"([A-Za-z_][A-Za-z0-9_]{1,79})"')
+        caps = re.compile(r"\b[A-Z][A-Z0-9_]{3,}\b")
+        kes = re.compile(r"KESTREL_[A-Z0-9_]*[A-Z0-9]")
+        texts = {}
+        for dp, dirs, files in os.walk(root):
+            dirs[:] = [d for d in dirs if d not in ("target", ".git", "tests", "benches")]
+            for fn in files:
+                if fn.endswith(".rs"):
+                    p = os.path.join(dp, fn)
+                    try:
+                        texts[p] = open(p, encoding="utf-8", errors="replace").read()
+                    except OSError:
+                        pass
+        consts = {}
+        for p, t in texts.items():
+            for m in re.finditer(r"\b([A-Z][A-Z0-9_]{2,})\s*:\s*&\s*(?:'static\s+)?(?:str|OsStr|\[u8\])\s*=\s*b?\"([^\"\\]+)\"", t):
+                consts[m.group(1)] = m.group(2)
+        found = {}
+
+        def add(name, where):
+            found.setdefault(name, where)
+        for p, t in texts.items():
+            rel = os.path.relpath(p, root)
+            for m in kes.finditer(t):
+                add(m.group(0), "%s (KESTREL_* token)" % rel)
+            lines = t.split("\n")
+            for i, l in enumerate(lines):
+                if not acc.search(l):
+                    continue
+                win = "\n".join(lines[max(0, i - 3):i + 4])
+                for m in lit.finditer(win):
+                    if re.fullmatch(r"[A-Z][A-Z0-9_]{2,}", m.group(1)) or ('"%s"' % m.group(1)) in l:
+                        add(m.group(1), "%s:%d (string literal at an environment access)" % (rel, i + 1))
+                for m in caps.finditer(win):
+                    tok = m.group(0)
+                    if tok in consts:
+                        add(consts[tok], "%s:%d (constant %s at an environment access)" % (rel, i + 1, tok))
+        return found
+
+    @staticmethod
+    def env_scan_binaries(paths):
+        found = {}
+        for p in paths:
+            try:
+                data = open(p, "rb").read()
+            except OSError:
+                continue
+            for m in re.finditer(rb"KESTREL_[A-Z0-9_]*[A-Z0-9]", data):
+                # adjacent literals are not separated in .rodata: cut a run at every further "KESTREL_"
+                for part in re.split(r"(?=KESTREL_)", m.group(0).decode()):
+                    if len(part) > len("KESTREL_"):
+                        found.setdefault(part, os.path.basename(p))
+        return found
+
+    def env_trace(self, ctx, wd, kr, ptf, pw_s):
+        """names passed to getenv / secure_getenv by the real CLI and by libdrv while they draw randomness; {} when no C compiler is there"""
+        src, so, log = os.path.join(wd, "envshim.c"), os.path.join(wd, "envshim.so"), os.path.join(wd, "envlog.txt")
+        open(src, "w").write(self.ENV_SHIM_C)
+        rc, out = vlib.sh(["cc", "-shared", "-fPIC", "-O1", "-o", so, src, "-ldl"], timeout=120)
+        if rc != 0 or not os.path.exists(so):
+            self.count(ctx, "env-trace:not-available(no C compiler)")
+            return {}
+        pre = {"LD_PRELOAD": so, "KESTREL_VERIF_ENVLOG": log}
+        runs = [(["encrypt", ptf, "-t", "env-recipient", "-f", "env-sender", "-o", os.path.join(wd, "tr_enc.bin"), "-k", kr, "--env-pass"], {"KESTREL_PASSWORD": pw_s}, None),
+                (["password", "encrypt", ptf, "-o", os.path.join(wd, "tr_pass.bin"), "--env-pass"], {"KESTREL_PASSWORD": "trace pw"}, None),
+                (["key", "generate", "-o", os.path.join(wd, "tr_gen.txt"), "--env-pass"], {"KESTREL_PASSWORD": "trace pw"}, b"trace-key\n"),
+                (["encrypt", os.path.join(wd, "does-not-exist"), "-t", "env-recipient", "-f", "env-sender", "-k", kr, "--env-pass"], {"KESTREL_PASSWORD": pw_s}, None)]
+        ok = 0
+        for args, env, stdin in runs:
+            rc, _, _ = cli(args, dict(env, **pre), stdin=stdin)
+            ok += rc == 0
+        (s, spk), (r, rpk) = self.parties[0], self.parties[1]
+        self.env_drv(ctx.bin, ["key_enc %s %s %s none none none 6162 - - -" % (hexs(s), hexs(spk), hexs(rpk)),
+                               "noise_enc %s %s %s none none %s %s" % (hexs(s), hexs(spk), hexs(rpk), hexs(PROLOGUE), hexs(bytes(32)))], pre)
+        names = {}
+        try:
+            for l in open(log, encoding="utf-8", errors="replace").read().split("\n"):
+                if l:
+                    names.setdefault(l, "getenv call traced in the running program")
+        except OSError:
+            pass
+        self.count(ctx, "env-trace:getenv-calls-seen", len(names))
+        # (the tracer is an aid: when it does not see the one call that is certainly made, its result is not used and the static scans stand alone)
+        self.count(ctx, "env-trace:self-test(sees KESTREL_PASSWORD, traced commands succeed)=%s" % ("ok" if ok >= 3 and "KESTREL_PASSWORD" in names else "FAILED"))
+        return names if "KESTREL_PASSWORD" in names else {}
+
+    @staticmethod
+    def env_drv(binp, bodies, env):
+        """libdrv with extra environment variables; replies as dicts (drv() of this module runs in the check's own environment)"""
+        e = cli_env(env)
+        inp = "".join("%d %s\n" % (i + 1, b) for i, b in enumerate(bodies))
+        try:
+            p = subprocess.run([binp], input=inp.encode(), env=e, stdout=subprocess.PIPE, stderr=subprocess.PIPE, timeout=300)
+            out = p.stdout.decode("utf-8", "replace")
+        except subprocess.TimeoutExpired:
+            out = ""
+        res = {}
+        for l in out.splitlines():
+            if " " in l:
+                res[l.split()[0]] = l
+        return [parse_kv(res.get(str(i + 1), "%d outcome=missing" % (i + 1))) for i in range(len(bodies))]
+
+    def env_independence(self, ctx, force_names=None):
+        rng = ctx.rng
+        wd = tempfile.mkdtemp(prefix="kv_c07e_", dir="/tmp")
+        try:
+            (s, spk), (r, rpk) = self.parties[0], self.parties[1]
+            pw_s = "env sender pw"
+            kr_text, _ = make_keyring([("env-sender", s, spk, pw_s.encode(), ctx.rbytes(32)), ("env-recipient", r, rpk, b"rcpt", ctx.rbytes(32))])
+            kr = os.path.join(wd, "keyring.txt")
+            open(kr, "w").write(kr_text)
+            pt = ctx.rbytes(100)
+            ptf = os.path.join(wd, "plain.bin")
+            open(ptf, "wb").write(pt)
+            src = self.env_scan_sources(os.path.join(vlib.REPO, "src"))
+            bins = self.env_scan_binaries([vlib.CLIDRV, ctx.bin, vlib.FFI_SO])
+            traced = self.env_trace(ctx, wd, kr, ptf, pw_s)
+            known = set(self.ENV_DOCUMENTED)
+            cand = {}
+            for name, where in list(src.items()) + list(traced.items()):
+                if name in known or name.startswith(self.ENV_HARNESS_PREFIX) or name.startswith("LD_") or not re.fullmatch(r"[A-Za-z_][A-Za-z0-9_]*", name):
+                    continue
+                cand.setdefault(name, where)
+            explained = known | set(src) | set(traced)
+            for tok, where in bins.items():
+                if tok.startswith(self.ENV_HARNESS_PREFIX) or any(tok.startswith(n) for n in explained):
+                    continue
+                parts = tok.split("_")
+                for k in range(2, len(parts) + 1):
+                    cand.setdefault("_".join(parts[:k]), "KESTREL_* token %s in the built %s" % (tok, where))
+            for n in (force_names or []):
+                cand.setdefault(n, "forced")
+            self.ran(ctx, "env-scan")
+            self.count(ctx, "env-names:sources", len(src))
+            self.count(ctx, "env-names:binaries", len(bins))
+            self.count(ctx, "env-names:undocumented", len(cand))
+            self.sample(ctx, {"gen": "env-scan", "in_sources": sorted(src), "in_binaries": sorted(bins), "getenv_traced": sorted(traced), "undocumented": cand})
+            if not cand:
+                return
+            names = sorted(cand)
+            if len(names) > (40 if ctx.thorough() else 12):
+                self.count(ctx, "env-names:not-tested(too many)", len(names) - 12)
+                keep = [n for n in names if n.startswith("KESTREL_")]
+                names = (keep + [n for n in names if n not in keep])[:40 if ctx.thorough() else 12]
+            # odd values
+            zeros = os.path.join(wd, "zeros.bin")
+            open(zeros, "wb").write(bytes(1 << 16))
+            large = os.path.join(wd, "large.bin")
+            shutil.copyfile(vlib.CLIDRV, large)
+            empty = os.path.join(wd, "empty.bin")
+            open(empty, "wb").close()
+            adir = os.path.join(wd, "a-directory")
+            os.mkdir(adir)
+            values = [("a regular file of 65536 zero bytes", zeros), ("a large regular file (a copy of the CLI binary)", large), ("an empty regular file", empty),
+                      ("a directory", adir), ("the string 1", "1"), ("the string 0", "0"), ("the empty string", "")]
+            jobs, meta, libjobs = [], [], []
+            for name in names:
+                for vdesc, val in values:
+                    env1 = {name: val}
+                    g = (name, vdesc)
+                    for k in range(3):
+                        o = os.path.join(wd, "e_%d.bin" % len(jobs))
+                        jobs.append({"args": ["encrypt", ptf, "-t", "env-recipient", "-f", "env-sender", "-o", o, "-k", kr, "--env-pass"], "env": dict(env1, KESTREL_PASSWORD=pw_s)})
+                        meta.append({"g": g, "kind": "encrypt", "out": o})
+                    for k in range(2):
+                        o = os.path.join(wd, "e_%d.bin" % len(jobs))
+                        jobs.append({"args": ["password", "encrypt", ptf, "-o", o, "--env-pass"], "env": dict(env1, KESTREL_PASSWORD="env file pw")})
+                        meta.append({"g": g, "kind": "password-encrypt", "out": o})
+                    for k in range(2):
+                        o = os.path.join(wd, "e_%d.txt" % len(jobs))
+                        jobs.append({"args": ["key", "generate", "-o", o, "--env-pass"], "env": dict(env1, KESTREL_PASSWORD="env gen pw"), "stdin": b"env-key\n"})
+                        meta.append({"g": g, "kind": "key-generate", "out": o})
+                    libjobs.append((g, env1, ["setrand none"] + ["key_enc %s %s %s none none none %s - - -" % (hexs(s), hexs(spk), hexs(rpk), hexs(pt[:9]))] * 3
+                                    + ["noise_enc %s %s %s none none %s %s" % (hexs(s), hexs(spk), hexs(rpk), hexs(PROLOGUE), hexs(pt[:32]))] * 2))
+            results = cli_many(jobs)
+            with ThreadPoolExecutor(max_workers=vlib.NPROC) as ex:
+                libres = list(ex.map(lambda j: self.env_drv(ctx.bin, j[2], j[1]), libjobs))
+            groups = collections.defaultdict(lambda: collections.defaultdict(list))     # g -> kind-of-value -> [(value, what run)]
+            hs = []
+            for j, m, (rc, so, se) in zip(jobs, meta, results):
+                F = open(m["out"], "rb").read() if os.path.exists(m["out"]) else None
+                self.ran(ctx, "env/%s" % m["kind"])
+                if rc != 0 or not F:
+                    self.count(ctx, "env-run-refused:%s[%s]" % (m["kind"], m["g"][1]))
+                    continue
+                what = {"argv": j["args"], "env": j["env"]}
+                if m["kind"] == "encrypt" and len(F) >= 132:
+                    groups[m["g"]]["ephemeral key"].append((F[4:36], what))
+                    hs.append((m["g"], F[4:132], what, r, rpk))
+                elif m["kind"] == "password-encrypt" and len(F) >= 36:
+                    groups[m["g"]]["salt / generated key"].append((F[4:36], what))
+                elif m["kind"] == "key-generate":
+                    pk, sk = self.key_fields(F.decode("utf-8", "replace"))
+                    try:
+                        groups[m["g"]]["salt / generated key"].append((base64.b64decode(pk)[:32], what))
+                        groups[m["g"]]["salt / generated key"].append((base64.b64decode(sk)[4:36], what))
+                    except Exception:
+                        self.count(ctx, "env-run-refused:key-generate-output-unreadable")
+            for (g, env1, bodies), rs in zip(libjobs, libres):
+                for b, x in zip(bodies[1:], rs[1:]):
+                    op = b.split()[0]
+                    self.ran(ctx, "env/library-%s" % op)
+                    if x.get("outcome") != "ok":
+                        self.count(ctx, "env-run-refused:library-%s[%s]=%s" % (op, g[1], x.get("outcome")))
+                        continue
+                    out = unhex(x.get("out", "-"))
+                    what = {"driver": "libdrv", "lines": bodies, "env": env1}
+                    off = 4 if op == "key_enc" else 0
+                    groups[g]["ephemeral key"].append((out[off:off + 32], what))
+                    if op == "key_enc":
+                        hs.append((g, out[4:132], what, r, rpk))
+            nd = drv(ctx.bin, ["noise_dec %s %s %s %s" % (hexs(h[3]), hexs(h[4]), hexs(PROLOGUE), hexs(h[1])) for h in hs])
+            for h, x in zip(hs, nd):
+                if x.get("outcome") == "ok":
+                    groups[h[0]]["payload key"].append((unhex(x.get("out", "-")), h[2]))
+                else:
+                    self.count(ctx, "env-output-not-opened-by-recipient[%s]" % h[0][1])
+            base = set(getattr(self, "lib_values", []))
+            for g in sorted(groups):
+                name, vdesc = g
+                allv = []
+                for kind, vals in groups[g].items():
+                    allv += [(v, kind, w) for v, w in vals]
+                seen = {}
+                dup = None
+                for v, kind, w in allv:
+                    if v in seen or v in base:
+                        dup = (v, kind, w, seen.get(v, ("a value of the runs without the variable", None)))
+                        break
+                    seen[v] = (kind, w)
+                inp = {"driver": "cli+libdrv", "environment_variable": name, "set_to": vdesc, "where_the_name_comes_from": cand[name],
+                       "runs": "3 x encrypt, 2 x password encrypt, 2 x key generate (real CLI), 3 x key_encrypt + 2 x noise_encrypt (one libdrv process), identical inputs, all with this variable set",
+                       "first_repeat": None if dup is None else {"value_is": dup[1], "run": dup[2], "same_value_in": dup[3][1], "there_it_is": dup[3][0]}}
+                self.check(ctx, dup is None, inp,
+                           "with %s set to %s the %d random values of the successful runs (ephemeral keys, payload keys, salts, generated keys) are still pairwise distinct" % (name, vdesc, len(allv)),
+                           None if dup is None else "%s %s occurs twice" % (dup[1], dup[0].hex()))
+        finally:
+            shutil.rmtree(wd, ignore_errors=True)
+
+    SELF_RULE = ("(e) self-addressed CLI encryptions (`encrypt -t X -f X`: recipient = sender) repeated with identical inputs (quick 10, thorough 100 processes) and "
+                 "inside the CLI histories (three identical invocations in a row, other plaintexts, two-party files in between, standard output): ephemeral keys "
+                 "and recovered payload keys pairwise distinct and distinct from every other random value observed, bytes 4..36 never a public key of the "
+                 "keyring, sealed sender keys (bytes 36..84) pairwise distinct; under KESTREL_VERIF_RANDOM the output equals the library's key_encrypt to "
+                 "the sender's own key with payload key = stream[0:32], ephemeral = stream[32:64]")
+    rule = rule + " " + SELF_RULE
+
+    def cli_self_oracles(self, ctx, by, s, spk, rpk, pt):
+        ms = by["idle/encrypt-self"]
+        if ms:
+            n = len(ms)
+            inp = dict(ms[0]["inp"], repeat=n, note="statistical observation over %d self-addressed runs with identical inputs" % n)
+            self.ran(ctx, "cli-idle/encrypt-self", n)
+            files = [m["file"] or b"" for m in ms]
+            eph = [f[4:36] for f in files]
+            self.check(ctx, all(len(f) == 132 + 32 + len(pt) for f in files), inp, "every self-addressed run writes a %d-byte key-mode file" % (164 + len(pt)), sorted(set(len(f) for f in files)))
+            self.check(ctx, len(set(eph)) == n and all(len(x) == 32 for x in eph), inp,
+                       "self-addressed files: ephemeral keys (file bytes 4..36) pairwise distinct", "%d distinct of %d: %s" % (len(set(eph)), n, sorted(set(x.hex() for x in eph))[:2]))
+            self.check(ctx, spk not in eph and rpk not in eph, inp, "file bytes 4..36 are a fresh ephemeral public key, never a public key of the keyring",
+                       "bytes 4..36 = the sender's long-term public key %s in %d of %d files" % (spk.hex(), eph.count(spk), n))
+            sealed = [f[36:84] for f in files]
+            self.check(ctx, len(set(sealed)) == n, inp, "the sealed sender key (bytes 36..84, sealed under the key derived from the fresh ephemeral exchange with nonce 0) "
+                       "differs from file to file", "%d distinct of %d" % (len(set(sealed)), n))
+            nd = drv(ctx.bin, ["noise_dec %s %s %s %s" % (hexs(s), hexs(spk), hexs(PROLOGUE), hexs(f[4:132])) for f in files if len(f) >= 132])
+            pks = [unhex(x.get("out", "-")) for x in nd if x["outcome"] == "ok"]
+            self.check(ctx, len(pks) == n and len(set(pks)) == n, inp, "self-addressed files: payload keys (recovered with the sender's own key) pairwise distinct",
+                       "%d distinct of %d recovered" % (len(set(pks)), len(pks)))
+            other = []
+            for kind in ("idle/encrypt",):
+                other += [(m["file"] or b"")[4:36] for m in by[kind]]
+            allv = eph + pks + other + list(getattr(self, "lib_values", []))
+            self.check(ctx, len(set(allv)) == len(allv), inp, "the %d random values of the self-addressed runs, of the two-party runs and of the library runs are pairwise distinct" % len(allv),
+                       "%d distinct" % len(set(allv)))
+        ss = by["stream/encrypt-self"]
+        if ss:
+            xp = drv(ctx.bin, ["xpub %s" % hexs(m["stream"][32:64]) for m in ss])
+            lres = drv(ctx.bin, ["key_enc %s %s %s %s %s %s %s - - -" % (hexs(s), hexs(spk), hexs(spk), hexs(m["stream"][32:64]), x.get("out", "-"),
+                                                                        hexs(m["stream"][0:32]), hexs(pt)) for m, x in zip(ss, xp)])
+            for m, lr in zip(ss, lres):
+                self.ran(ctx, "cli-stream/encrypt-self")
+                want = unhex(lr.get("out", "-"))
+                self.check(ctx, m["file"] == want and lr.get("outcome") == "ok", m["inp"],
+                           "self-addressed CLI output = library key_encrypt to the sender's own key with payload key = stream[0:32], ephemeral = stream[32:64] (%d bytes)" % len(want),
+                           "%s bytes, first difference at %s; bytes 4..36 = %s" % (len(m["file"] or b""), next((i for i, (a, b) in enumerate(zip(m["file"] or b"", want)) if a != b), None),
+                                                                              (m["file"] or b"")[4:36].hex()))
 
     def cli_idle_oracles(self, ctx, by, r, rpk, salt_s, N):
         note = "statistical observation over %d runs with identical inputs" % N
@@ -1225,6 +1569,7 @@ class C08(MiscProp):
     def run(self, ctx):
         self.library(ctx)
         self.library_mixed(ctx)
+        self.after_failure_sequences(ctx)
         self.fresh_ephemeral(ctx)
         self.cli_part(ctx)
         self.cli_sizes(ctx)
@@ -1443,6 +1788,304 @@ class C08(MiscProp):
         self.check(ctx, spk not in eph and rpk not in eph, inp, "bytes 4..36 are never a party's static public key", "static key used as ephemeral")
         self.check(ctx, len(set(f[0:4] + b"".join(x[0:16] for x in records(f, 132)) for f in files)) == 1, inp,
                    "apart from the ephemeral key the cleartext fields are identical in all runs", "different magic / record headers")
+
+    # ---------------------------------------------------------------- operations AFTER a failed operation, same process, same thread
+    RULE_AFTER_FAILURE = (
+        "in-process sequences (ONE libdrv process, one thread): every way an operation can FAIL that the harness can provoke — key exchange "
+        "refused (all-zero / low-order recipient key, with an injected and with a library-chosen ephemeral key; noise_encrypt alone), reader fault at "
+        "read 0..3, writer fault and short write at write 0..5, flush fault, caught panics (31-byte payload key, 31-byte chunk key, HKDF length 0), "
+        "and on the decrypt side wrong recipient, damaged / truncated / low-order-ephemeral files, reader and writer faults, garbage handshakes, a wrong "
+        "password — singly and in bursts of 2..4, each followed ON THE SAME THREAD by ordinary operations (key_encrypt with every random value injected, "
+        "with the random stream installed, with production randomness; noise_encrypt; pass_encrypt; key_decrypt / pass_decrypt of good files): every "
+        "later output obeys the whole of C08 (exact length 132 (36) + 32*records + |P|, well-formed records to end-of-file, the predicted cleartext view "
+        "magic / fresh ephemeral key (salt) / record headers and nothing else, no needle), is opened by the recipient to the plaintext, and equals the "
+        "model's output (the model has no memory of earlier operations)")
+    rule = rule + " " + RULE_AFTER_FAILURE
+
+    def after_failure_sequences(self, ctx):
+        rng = ctx.rng
+        full = ctx.thorough()
+        (s, spk), (r, rpk), (s2, spk2), (r2, rpk2), (e, epk) = keypairs(ctx, 5)
+        lows = [bytes.fromhex(x) for x in props.C19.LOW_ORDER]
+        lows_sel = lows if full else [lows[0], lows[1]] + rng.sample(lows[2:], 2)
+        P1, P2 = ctx.rbytes(7), ctx.rbytes(5)
+        pw_good = b"sequence pw"
+        mk = [Case("key_enc", s=s, spk=spk, r=rpk, e=e, epk=epk, pk=ctx.rbytes(32), data=P1),
+              Case("key_enc", s=s2, spk=spk2, r=rpk, e=e, epk=epk, pk=ctx.rbytes(32), data=P2, rs="c2,c3"),
+              Case("pass_enc", pw=pw_good, salt=ctx.rbytes(32), data=P1)]
+        vlib.run_impl(ctx.bin, mk)
+        if not all(c.result["code"] == 0 for c in mk):
+            self.machinery(ctx, "C08 sequences: the files for the decrypt side could not be made: %s" % [c.result["outcome"] for c in mk])
+            return
+        F1, F2, FP = [c.result["out"] for c in mk]
+        goods = [(F1, P1, spk), (F2, P2, spk2)]
+        o_ = lambda b: "none" if b is None else hexs(b)
+        parties = [(s, spk, rpk, r), (s2, spk2, rpk2, r2), (s, spk, rpk2, r2), (r, rpk, spk, s)]     # sender sk, sender pk, recipient pk, recipient sk
+
+        def parts_for(n):
+            if n == 0:
+                return []
+            return rng.choice(all_partitions(n, n)) if n <= 5 else rng.choice([[], [1, 1], [n // 2]])
+
+        def file_judge(hdr, head, n, parts, needles):
+            sizes = sim_reads(n, parts) or [0]
+            magic = PROLOGUE if hdr == 132 else PASS_MAGIC
+
+            def f(res):
+                if res["code"] != 0:
+                    return ("the encryption succeeds", res["outcome"])
+                F = res["out"]
+                want_len = hdr + 32 * len(sizes) + n
+                if len(F) != want_len:
+                    return ("length = %d + 32*%d + %d = %d" % (hdr, len(sizes), n, want_len), "%d bytes: %s" % (len(F), F[:200].hex()))
+                bad, _ = c08_wellformed(F, hdr, n)
+                if bad:
+                    return ("after the %d header bytes the file is exactly a sequence of chunk records ending at end-of-file" % hdr, bad)
+                if head is not None:
+                    want_v = magic + head + b"".join(j.to_bytes(8, "big") + (1 if j == len(sizes) - 1 else 0).to_bytes(4, "big") + sizes[j].to_bytes(4, "big")
+                                                    for j in range(len(sizes)))
+                    v, _ = view_of(F, hdr)
+                    if v != want_v:
+                        return ("cleartext view = magic, the ephemeral key / salt of THIS operation, per-record (counter, last flag, length): " + want_v.hex(), v.hex())
+                hits = find_needles(F, needles)
+                if hits:
+                    return ("no identity material anywhere in the file", "found " + ", ".join(hits))
+                return None
+            return f
+
+        def nd(a):
+            return needles_for(a[1], "sender-public-key") + needles_for(a[2], "recipient-public-key")
+        # ---- ordinary operations (each call makes a new step)
+        budget = {"pass": 6 if full else 2}
+
+        def n_key_injected():
+            a = rng.choice(parties)
+            n = rng.choice([0, 1, 5, 33])
+            parts = parts_for(n)
+            c = Case("key_enc", s=a[0], spk=a[1], r=a[2], e=e, epk=epk, pk=ctx.rbytes(32), data=ctx.rbytes(n), rs=script_of(parts))
+            return {"label": "key_encrypt/all-injected", "case": c, "judge": file_judge(132, epk, n, parts, nd(a)), "open": (a, c.a["data"])}
+
+        def n_key_stream():
+            a = rng.choice(parties)
+            n = rng.choice([0, 3, 33])
+            parts = parts_for(n)
+            stream = ctx.rbytes(64 + rng.choice([0, 7]))
+            data = ctx.rbytes(n)
+            return {"label": "key_encrypt/random-stream", "op": "key_enc", "main": 1, "stream": stream, "a": a, "data": data, "parts": parts,
+                    "lines": ["setrand %s" % hexs(stream),
+                              "key_enc %s %s %s none none none %s %s - -" % (hexs(a[0]), hexs(a[1]), hexs(a[2]), hexs(data), script_of(parts)),
+                              "randleft", "setrand none"], "open": (a, data)}
+
+        def n_key_production():
+            a = rng.choice(parties)
+            n = rng.choice([0, 4, 33])
+            data = ctx.rbytes(n)
+            return {"label": "key_encrypt/production-randomness", "op": "key_enc", "main": 0, "production": True,
+                    "lines": ["key_enc %s %s %s none none none %s - - -" % (hexs(a[0]), hexs(a[1]), hexs(a[2]), hexs(data))],
+                    "judge": file_judge(132, None, n, [], nd(a)), "open": (a, data)}
+
+        def n_noise():
+            a = rng.choice(parties)
+            c = Case("noise_enc", s=a[0], spk=a[1], r=a[2], e=e, epk=epk, prologue=rng.choice([PROLOGUE, b"", b"other"]), payload=ctx.rbytes(32))
+
+            def f(res):
+                if res["code"] != 0 or len(res["out"]) != 128 or res["out"][:32] != epk:
+                    return ("noise_encrypt succeeds with a 128-byte message = ephemeral key (32) || sealed sender key (48) || sealed payload key (48)",
+                            "%s, %d bytes: %s" % (res["outcome"], len(res["out"]), res["out"][:200].hex()))
+                hits = find_needles(res["out"], nd(a))
+                return ("no identity material in the handshake message", "found " + ", ".join(hits)) if hits else None
+            return {"label": "noise_encrypt/injected", "case": c, "judge": f}
+
+        def n_key_dec():
+            F, P, sender = rng.choice(goods)
+            c = Case("key_dec", r=r, rpk=rpk, data=F, rs=rng.choice(["-", "c1,c3,c40", "c4,c128"]))
+
+            def f(res):
+                if res["code"] != 0 or res["out"] != P or res["extra"] != sender:
+                    return ("a good file is decrypted to its %d plaintext bytes and names its sender, whatever failed before" % len(P),
+                            "%s out=%s sender=%s" % (res["outcome"], res["out"].hex(), res["extra"].hex()))
+                return None
+            return {"label": "key_decrypt/good-file", "case": c, "judge": f}
+
+        def n_pass_enc():
+            n = rng.choice([0, 5])
+            parts = parts_for(n)
+            pw, salt = rng.choice([b"pw one", b"another password, longer"]), ctx.rbytes(32)
+            c = Case("pass_enc", pw=pw, salt=salt, data=ctx.rbytes(n), rs=script_of(parts))
+            return {"label": "pass_encrypt", "case": c, "judge": file_judge(36, salt, n, parts, [("password", pw)] if len(pw) >= 10 else [])}
+
+        def n_pass_dec():
+            c = Case("pass_dec", pw=pw_good, data=FP)
+            return {"label": "pass_decrypt/good-file", "case": c,
+                    "judge": lambda res: None if res["code"] == 0 and res["out"] == P1 else ("a good password file is decrypted, whatever failed before", res["outcome"])}
+        light = [n_key_injected, n_key_stream, n_key_production, n_noise, n_key_dec]
+
+        def normals():
+            out = [rng.choice([n_key_injected, n_key_stream, n_key_production])(), n_key_dec()]
+            if budget["pass"] > 0 and rng.random() < 0.15:
+                budget["pass"] -= 1
+                out.append(rng.choice([n_pass_enc, n_pass_dec])())
+            else:
+                out.append(rng.choice(light)())
+            rng.shuffle(out)
+            return out
+        # ---- provocations: factories of failing steps
+        data5 = ctx.rbytes(5)
+        big = "c99999"
+        provs = []
+
+        def P_(label, mk_case=None, lines=None, op=None):
+            provs.append((label, mk_case, lines, op))
+        for u in lows_sel:
+            P_("key_encrypt to a low-order recipient key %s.. (ephemeral injected)" % u[:4].hex(),
+               lambda u=u: Case("key_enc", s=s, spk=spk, r=u, e=e, epk=epk, pk=ctx.rbytes(32), data=data5))
+            P_("key_encrypt to a low-order recipient key %s.. (ephemeral left to the library)" % u[:4].hex(),
+               lines=["key_enc %s %s %s none none none %s - - -" % (hexs(s), hexs(spk), hexs(u), hexs(data5))], op="key_enc")
+            P_("noise_encrypt to a low-order recipient key %s.." % u[:4].hex(),
+               lambda u=u: Case("noise_enc", s=s2, spk=spk2, r=u, e=e, epk=epk, prologue=PROLOGUE, payload=ctx.rbytes(32)))
+        P_("noise_encrypt to a low-order recipient key (ephemeral left to the library)",
+           lines=["noise_enc %s %s %s none none %s %s" % (hexs(s), hexs(spk), hexs(lows[0]), hexs(PROLOGUE), hexs(ctx.rbytes(32)))], op="noise_enc")
+        P_("key_encrypt to the all-zero recipient key under a low-order sender public key",
+           lambda: Case("key_enc", s=s, spk=lows[1], r=lows[0], e=e, epk=epk, pk=ctx.rbytes(32), data=data5))
+        for k in range(0, 4):
+            for tok in (("o", "u") if full or k < 2 else ("o",)):
+                P_("key_encrypt: reader fault (%s) at read %d" % (tok, k),
+                   lambda k=k, tok=tok: Case("key_enc", s=s, spk=spk, r=rpk, e=e, epk=epk, pk=ctx.rbytes(32), data=data5, rs=",".join(["c2"] * k + [tok])))
+        for k in range(0, 6):
+            for tok in ("o", "z"):
+                if tok == "z" and not full and k % 2:
+                    continue
+                P_("key_encrypt: writer %s at write %d" % ("fault" if tok == "o" else "accepts 0 bytes", k),
+                   lambda k=k, tok=tok: Case("key_enc", s=s, spk=spk, r=rpk, e=e, epk=epk, pk=ctx.rbytes(32), data=data5, rs="c2,c3", ws=",".join([big] * k + [tok])))
+        for k in range(0, 3):
+            P_("key_encrypt: flush fault at flush %d" % k,
+               lambda k=k: Case("key_enc", s=s, spk=spk, r=rpk, e=e, epk=epk, pk=ctx.rbytes(32), data=data5, rs="c2,c3", fs=",".join(["k"] * k + ["o"])))
+        P_("key_encrypt with a 31-byte payload key (panic, caught)", lambda: Case("key_enc", s=s, spk=spk, r=rpk, e=e, epk=epk, pk=ctx.rbytes(31), data=data5))
+        P_("chunk encryption with a 31-byte key (panic, caught)", lambda: Case("enc_chunks", key=ctx.rbytes(31), aad=b"", cs=4, data=b"abcdefgh"))
+        P_("HKDF of length 0 (panic, caught)", lambda: Case("hkdf", salt=b"", ikm=ctx.rbytes(32), info=b"", n=0))
+        # decrypt side
+        P_("key_decrypt by another recipient", lambda: Case("key_dec", r=r2, rpk=rpk2, data=F1))
+        P_("key_decrypt with a recipient public key that does not match", lambda: Case("key_dec", r=r, rpk=rpk2, data=F1))
+        for off in ([4, 36, 84, 131, 132, 140, 148, len(F1) - 1] if full else [4, 84, 148, len(F1) - 1]):
+            P_("key_decrypt of a file with byte %d changed" % off,
+               lambda off=off: Case("key_dec", r=r, rpk=rpk, data=F1[:off] + bytes([F1[off] ^ (1 << rng.randrange(8))]) + F1[off + 1:]))
+        for cut in ([0, 3, 4, 35, 36, 131, 132, 147, 148, len(F1) - 1] if full else [3, 35, 131, 147, len(F1) - 1]):
+            P_("key_decrypt of a file cut after %d bytes" % cut, lambda cut=cut: Case("key_dec", r=r, rpk=rpk, data=F1[:cut]))
+        for u in lows_sel[:2]:
+            P_("key_decrypt of a file whose ephemeral key is low-order %s.." % u[:4].hex(), lambda u=u: Case("key_dec", r=r, rpk=rpk, data=F1[:4] + u + F1[36:]))
+        for k in range(0, 4):
+            P_("key_decrypt: reader fault at read %d" % k, lambda k=k: Case("key_dec", r=r, rpk=rpk, data=F2, rs=",".join([big] * k + ["o"])))
+        for k in range(0, 2):
+            P_("key_decrypt: writer fault at write %d" % k, lambda k=k: Case("key_dec", r=r, rpk=rpk, data=F2, ws=",".join([big] * k + ["o"])))
+        P_("noise_decrypt of 128 random bytes", lambda: Case("noise_dec", r=r, rpk=rpk, prologue=PROLOGUE, msg=ctx.rbytes(128)))
+        P_("noise_decrypt of a short message", lambda: Case("noise_dec", r=r, rpk=rpk, prologue=PROLOGUE, msg=F1[4:4 + rng.choice([0, 31, 32, 80, 127])]))
+        P_("pass_decrypt with a wrong password", lambda: Case("pass_dec", pw=b"not the password", data=FP))
+        P_("pass_decrypt of a key-mode file", lambda: Case("pass_dec", pw=pw_good, data=F1))
+
+        def prov_step(p):
+            label, mk_case, lines, op = p
+            if mk_case is not None:
+                return {"label": label, "case": mk_case(), "provocation": True}
+            return {"label": label, "lines": list(lines), "op": op, "main": 0, "provocation": True}
+        # ---- the script: controls before any failure, every provocation alone, then bursts
+        seq = [f() for f in light] + [n_key_injected(), n_key_dec()]
+        for p in provs:
+            seq.append(prov_step(p))
+            seq += normals()
+        for _ in range(12 if full else 4):
+            for p in rng.sample(provs, rng.randrange(2, 5)):
+                seq.append(prov_step(p))
+            seq += normals()
+        # fresh keys of the random-stream steps (a process of its own: not part of the sequence)
+        st_steps = [st for st in seq if "stream" in st]
+        for st, x in zip(st_steps, drv(ctx.bin, ["xpub %s" % hexs(st["stream"][32:64]) for st in st_steps])):
+            st["judge"] = file_judge(132, unhex(x.get("out", "-")), len(st["data"]), st["parts"], nd(st["a"]))
+        bodies = []
+        for i, st in enumerate(seq):
+            st["at"] = len(bodies)
+            if st.get("case") is not None:
+                st["case"].id = str(i + 1)
+                st["op"], st["main"] = st["case"].op, 0
+                st["lines"] = [st["case"].rust_line().split(" ", 1)[1]]
+            bodies += st["lines"]
+        replies = drv(ctx.bin, bodies)
+        n_after, last_fail, failed_so_far = 0, None, 0
+        opens, eph = [], []
+        fresh_items, fresh_inp, fresh_impl, fresh_show = [], {}, {}, {}
+        for i, st in enumerate(seq):
+            rr = replies[st["at"] + st["main"]]
+            res = vlib.parse_result(st["op"], rr["raw"])
+            st["res"] = res
+            if st.get("case") is not None:
+                st["case"].result = res
+            if st.get("provocation"):
+                self.ran(ctx, "sequence/provocation")
+                failed = res["code"] != 0
+                self.count(ctx, "sequence-provocation-fails:%s" % ("yes" if failed else "NO (%s)" % st["label"]))
+                if failed:
+                    last_fail, failed_so_far = st["label"], failed_so_far + 1
+                continue
+            self.ran(ctx, "sequence/%s/%s" % (st["label"], "after-a-failure" if failed_so_far else "control-before-any-failure"))
+            n_after += 1 if failed_so_far else 0
+            inp = {"driver": "libdrv", "oracle": None, "lines": bodies[:st["at"] + len(st["lines"])],
+                   "note": "ALL lines run in this order in ONE driver process (one thread); the judged operation is line %d (0-based), %s; the last failed "
+                           "operation before it: %s; %d operations failed before it" % (st["at"] + st["main"], st["label"], last_fail, failed_so_far)}
+            st["inp"] = inp
+            msg = st["judge"](res)
+            self.check(ctx, msg is None, inp, "%s after earlier failed operations on the same thread: %s" % (st["label"], msg[0] if msg else ""), msg[1] if msg else None)
+            if "stream" in st:
+                left = replies[st["at"] + 2]
+                self.check(ctx, left.get("n") == str(len(st["stream"]) - 64), inp, "exactly 64 stream bytes are drawn (payload key, ephemeral key)", left["raw"][:100])
+                a = st["a"]
+                term = "run_key_enc_fresh [] %s %s %s %s %s None None None %s %s [] []" % (
+                    g_bytes(st["stream"][0:32]), g_bytes(st["stream"][32:64]), g_bytes(a[0]), g_bytes(a[1]), g_bytes(a[2]), g_bytes(st["data"]),
+                    g_rscript(script_of(st["parts"])))
+                fresh_items.append((i, "obs_eqb (%s) %s" % (term, g_obs(res)), 10))
+                fresh_show[i] = "show (%s)" % term
+                fresh_inp[i], fresh_impl[i] = inp, rr["raw"][:400]
+            if st.get("open") and msg is None and res["code"] == 0:
+                a, data = st["open"]
+                opens.append((st, "key_dec %s %s %s - - -" % (hexs(a[3]), hexs(a[2]), hexs(res["out"])), data, a[1]))
+                if st.get("production"):
+                    eph.append((res["out"][4:36], st))
+        # every file made after a failure is opened by its recipient (a process of its own)
+        for (st, line, data, sender), x in zip(opens, drv(ctx.bin, [o[1] for o in opens])):
+            kd = vlib.parse_result("key_dec", x["raw"])
+            self.check(ctx, kd["code"] == 0 and kd["out"] == data and kd["extra"] == sender, dict(st["inp"], then_in_a_new_process=[line]),
+                       "the file is well formed for its recipient: it decrypts to the %d plaintext bytes and names the sender" % len(data),
+                       "%s out=%s" % (kd["outcome"], kd["out"][:40].hex()))
+        keys = set([spk, rpk, spk2, rpk2])
+        for v, st in eph:
+            self.check(ctx, v not in keys and [x[0] for x in eph].count(v) == 1, st["inp"],
+                       "bytes 4..36 of a default encryption are a fresh ephemeral key: no party's key, and different from every other file of the sequence", v.hex())
+        # model: the deterministic steps (provocations included) through the case runners, the random-stream steps through run_key_enc_fresh
+        cases = [st["case"] for st in seq if st.get("case") is not None]
+        if not full:
+            # the direct oracles above judge EVERY ordinary step; the (costly: three X25519 per file in Gallina) model comparison takes a sample
+            # of the deterministic steps in the quick tier and all of them in the thorough tier
+            c_norm = [st["case"] for st in seq if st.get("case") is not None and not st.get("provocation")]
+            c_prov = [st["case"] for st in seq if st.get("case") is not None and st.get("provocation")]
+            cases = rng.sample(c_norm, min(10, len(c_norm))) + rng.sample(c_prov, min(4, len(c_prov)))
+            fresh_items = rng.sample(fresh_items, min(3, len(fresh_items)))
+            self.count(ctx, "sequence-steps-not-compared-with-the-model(quick tier sample)", len(c_norm) + len(c_prov) - len(cases))
+        table = vlib.kdf_table(ctx.bin, cases)
+        log = vlib.run_model(cases, table, ctx.pid + "q")
+        bad = [c for c in cases if c.agree is not True]
+        ctx.agreed += len(cases) - len(bad)
+        self.count(ctx, "model:sequence", len(cases))
+        if bad:
+            shown = vlib.run_model(bad[:6], table, ctx.pid + "qs", show=True)
+            for c in bad[:20]:
+                ctx.disagreements.append({"input": dict(c.full(), note="step %s of the in-process sequence" % c.id), "implementation": c.result["raw"][:600],
+                                          "model": shown.get(c.id, "model evaluation failed" if c.agree is None else "?")})
+            ctx.broken.append({"kind": "correspondence", "what": "correspondence C08/sequence: model and implementation differ on %d of %d steps of the in-process "
+                               "sequence%s" % (len(bad), len(cases), (" [" + log[-200:] + "]") if log else "")})
+        res_m, log = coq_eval(ctx.pid + "y", fresh_items)
+        self.model_results(ctx, "sequence/random-stream", fresh_items, res_m, log, fresh_inp, fresh_impl, fresh_show)
+        self.count(ctx, "sequence-lines", len(bodies))
+        self.count(ctx, "sequence-ordinary-operations-after-a-failure", n_after)
+        self.sample(ctx, {"gen": "sequence", "lines": len(bodies), "provocations": len([x for x in seq if x.get("provocation")]),
+                          "ordinary_operations_after_a_failure": n_after})
 
     def library_mixed(self, ctx):
         """half-injected ephemeral pairs: (Some e, None) and (None, Some epk).  noise.rs::init_x keeps an injected pair only
@@ -1849,6 +2492,7 @@ class C11(MiscProp):
         self.hostile_lengths(ctx)
         self.traces(ctx)
         self.process_streaming(ctx)
+        self.file_argument_streaming(ctx)
 
     # ---------------------------------------------------------------- forged chunk headers: the announced length must not size anything
     HOSTILE = [BIG + 1, 1 << 17, 1 << 20, 1 << 24, 1 << 28, 1 << 31, 0xFFFFFFFF]
@@ -2058,6 +2702,267 @@ class C11(MiscProp):
     def file_job(job):
         """a complete run over a regular file; returns (rc, peak RSS of that child in bytes)"""
         return c11_measured_run(job["argv"], job["env"])
+
+    # ---------------------------------------------------------------- the real CLI with its input named as a FILE argument and a SLOW consumer
+    RULE_FILE_ARG = (
+        "process level, input as FILE argument with a slow consumer: all four streaming commands read a REGULAR FILE named on the command line (and a named "
+        "FIFO given as FILE that the checker feeds as fast as it is accepted) and write to their standard-output pipe or to a FIFO given with -o that the "
+        "checker drains in steps (1 byte .. 5 chunks, sizes from the run's seed); between the steps, while the process is blocked on its output, the checker reads the "
+        "kernel's file position of the process's input descriptor (/proc/<pid>/fdinfo; for the FIFO: bytes accepted minus bytes still in the pipe) and then the "
+        "bytes it has drained plus the bytes waiting in the output pipe: input consumed - output written <= three chunks (the chunk being written and the two "
+        "further chunks the property allows; decrypt: plus the ciphertext overhead so far) at EVERY sample; the runs end with exit status 0 and the complete output")
+    rule = rule + " " + RULE_FILE_ARG
+
+    @staticmethod
+    def input_pos(pid, path):
+        """kernel file position of the descriptor through which process pid has `path` open (None: not open (yet / any more))"""
+        try:
+            for fd in os.listdir("/proc/%d/fd" % pid):
+                try:
+                    if os.readlink("/proc/%d/fd/%s" % (pid, fd)) == path:
+                        m = re.search(r"^pos:\s+(\d+)", open("/proc/%d/fdinfo/%s" % (pid, fd)).read(), re.M)
+                        if m:
+                            return int(m.group(1))
+                except OSError:
+                    continue
+        except OSError:
+            pass
+        return None
+
+    @staticmethod
+    def pipe_unread(fd):
+        import array
+        buf = array.array("i", [0])
+        try:
+            fcntl.ioctl(fd, 0x541B, buf)          # FIONREAD
+            return buf[0]
+        except OSError:
+            return 0
+
+    def lookahead_job(self, job):
+        """one CLI process whose input is a FILE argument (regular file, or a FIFO we feed) and whose output we drain in steps; every sample is
+        (input consumed, output written so far = drained + waiting in the output pipe), consumed read FIRST (the output can only have grown since)"""
+        res = {"samples": 0, "worst": None, "rc": None, "stderr": "", "drained": 0, "digest": None, "steps": 0, "out": None}
+        errf = tempfile.TemporaryFile()
+        out_fd = own_out = None
+        if job["output"] == "fifo":
+            own_out = out_fd = os.open(job["ofifo"], os.O_RDONLY | os.O_NONBLOCK)      # before the process starts: its open for writing finds a reader
+        p = subprocess.Popen([vlib.CLIDRV] + job["argv"], env=cli_env(job["env"]), stdin=subprocess.DEVNULL,
+                             stdout=(subprocess.PIPE if out_fd is None else subprocess.DEVNULL), stderr=errf, start_new_session=True)
+        dog = threading.Timer(150, p.kill)
+        dog.start()
+        in_fd = None
+        keep = [] if job.get("keep") else None
+        h = hashlib.sha256()
+        try:
+            if out_fd is None:
+                out_fd = p.stdout.fileno()
+                fcntl.fcntl(out_fd, fcntl.F_SETFL, fcntl.fcntl(out_fd, fcntl.F_GETFL) | os.O_NONBLOCK)
+            data = job.get("data")
+            fed = 0
+            if job["input"] == "fifo":
+                in_fd = self.open_fifo_writer(job["ififo"], lambda: p.poll() is None)
+                if in_fd is None:
+                    res["stderr"] = "the process never opened its input FIFO; "
+                else:
+                    fcntl.fcntl(in_fd, fcntl.F_SETFL, fcntl.fcntl(in_fd, fcntl.F_GETFL) | os.O_NONBLOCK)
+            try:
+                res["cap_out"] = fcntl.fcntl(out_fd, 1032)
+            except OSError:
+                res["cap_out"] = 65536
+            bound = job["bound"]
+            D, eof = 0, False
+
+            def feed():
+                nonlocal fed, in_fd
+                if in_fd is None:
+                    return
+                try:
+                    while fed < len(data):
+                        fed += os.write(in_fd, data[fed:fed + (1 << 16)])
+                except BlockingIOError:
+                    return
+                except OSError:
+                    pass
+                if fed >= len(data) or p.poll() is not None:
+                    os.close(in_fd)
+                    in_fd = None
+
+            def consumed():
+                if job["input"] == "regular":
+                    return self.input_pos(p.pid, job["ifile"])
+                if in_fd is None:
+                    return None            # everything fed and the write end closed: nothing more to learn
+                return fed - self.pipe_unread(in_fd)
+
+            def sample():
+                c = consumed()
+                w = D + self.pipe_unread(out_fd)
+                if c is not None:
+                    res["samples"] += 1
+                    ex = c - w - bound(w)
+                    if res["worst"] is None or ex > res["worst"]["excess"]:
+                        res["worst"] = {"excess": ex, "input_consumed": c, "output_written": w, "drained_by_the_checker": D, "allowed_lead": bound(w)}
+                return c, w
+            steps = list(job["steps"])
+            t_end = time.time() + 120
+            while not eof and time.time() < t_end:
+                # let the process run until it rests (blocked on its output, or finished)
+                last, same, t0 = None, 0, time.time()
+                while time.time() - t0 < 40:
+                    feed()
+                    cur = sample()
+                    same = same + 1 if cur == last else 0
+                    last = cur
+                    if (same >= 3 and cur[1] > D) or p.poll() is not None:
+                        break
+                    time.sleep(0.008)
+                want = steps.pop(0) if steps else 5 * BIG
+                got = 0
+                while got < want:
+                    try:
+                        b = os.read(out_fd, min(want - got, 1 << 20))
+                    except BlockingIOError:
+                        if p.poll() is not None and self.pipe_unread(out_fd) == 0:
+                            eof = True
+                        break
+                    except OSError:
+                        eof = True
+                        break
+                    if not b:
+                        eof = True
+                        break
+                    got += len(b)
+                    D += len(b)
+                    h.update(b)
+                    if keep is not None:
+                        keep.append(b)
+                res["steps"] += 1
+            res["drained"] = D
+        finally:
+            for fd in (in_fd, own_out):
+                try:
+                    if fd is not None:
+                        os.close(fd)
+                except OSError:
+                    pass
+            try:
+                res["rc"] = p.wait(timeout=30)
+            except subprocess.TimeoutExpired:
+                p.kill()
+                res["rc"] = 124
+            if p.stdout:
+                p.stdout.close()
+            dog.cancel()
+            errf.seek(0)
+            res["stderr"] += errf.read().decode("utf-8", "replace")[-300:]
+            errf.close()
+        res["digest"] = h.hexdigest()
+        if keep is not None:
+            res["out"] = b"".join(keep)
+        return res
+
+    def file_argument_streaming(self, ctx):
+        rng = ctx.rng
+        full = ctx.thorough()
+        wd = tempfile.mkdtemp(prefix="kv_c11f_", dir="/tmp")
+        try:
+            n = (rng.randrange(40, 60) if not full else rng.randrange(300, 400)) * BIG + rng.randrange(1, BIG)
+            data = hashlib.shake_256(ctx.rbytes(16)).digest(n)
+            P = lambda x: os.path.join(wd, x)
+            open(P("plain.bin"), "wb").write(data)
+            (s, spk), (r, rpk) = keypairs(ctx, 2)
+            kr_text, _ = make_keyring([("fa-sender", s, spk, b"pw-s", ctx.rbytes(32)), ("fa-recipient", r, rpk, b"pw-r", ctx.rbytes(32))])
+            open(P("keyring.txt"), "w").write(kr_text)
+            envp, envs, envr = {"KESTREL_PASSWORD": "file-arg pw"}, {"KESTREL_PASSWORD": "pw-s"}, {"KESTREL_PASSWORD": "pw-r"}
+            keyargs = ["-t", "fa-recipient", "-f", "fa-sender", "-k", P("keyring.txt"), "--env-pass"]
+            decargs = ["-t", "fa-recipient", "-k", P("keyring.txt"), "--env-pass"]
+            enc_bound = lambda w: 3 * BIG
+            dec_bound = lambda hdr: (lambda w: hdr + 3 * (BIG + 32) + 32 * (w // BIG + 1) + 1)
+
+            def steps():
+                first = [rng.choice([1, 4, 16, 36, 132]), rng.choice([1, 100, 4096])]
+                return first + [rng.choice([1, 4096, BIG // 2, BIG, BIG + 32, 2 * BIG, 3 * BIG + 7, 5 * BIG]) for _ in range(12 if not full else 40)] + [5 * BIG] * 400
+            nfifo = [0]
+
+            def job(label, cmd, infile, indata, via, out, env, bound, tail, keep=False):
+                j = {"label": label, "env": env, "bound": bound, "steps": steps(), "keep": keep, "output": out, "input": via}
+                argv = list(cmd)
+                if via == "regular":
+                    j["ifile"] = infile
+                    argv.append(infile)
+                else:
+                    nfifo[0] += 1
+                    j["ififo"] = P("in_%d.fifo" % nfifo[0])
+                    os.mkfifo(j["ififo"])
+                    j["data"] = indata
+                    argv.append(j["ififo"])
+                if out == "fifo":
+                    nfifo[0] += 1
+                    j["ofifo"] = P("out_%d.fifo" % nfifo[0])
+                    os.mkfifo(j["ofifo"])
+                    argv += ["-o", j["ofifo"]]
+                j["argv"] = argv + tail
+                return j
+            nrec = -(-n // BIG)
+            jobs1 = [
+                job("password encrypt <regular file> -> stdout pipe", ["password", "encrypt"], P("plain.bin"), None, "regular", "stdout", envp, enc_bound, ["--env-pass"], keep=True),
+                job("password encrypt <regular file> -o <FIFO>", ["password", "encrypt"], P("plain.bin"), None, "regular", "fifo", envp, enc_bound, ["--env-pass"]),
+                job("encrypt <regular file> -> stdout pipe", ["encrypt"], P("plain.bin"), None, "regular", "stdout", envs, enc_bound, keyargs, keep=True),
+                job("encrypt <regular file> -o <FIFO>", ["encrypt"], P("plain.bin"), None, "regular", "fifo", envs, enc_bound, keyargs),
+                job("encrypt <FIFO given as FILE> -> stdout pipe", ["encrypt"], None, data, "fifo", "stdout", envs, enc_bound, keyargs),
+                job("password encrypt <FIFO given as FILE> -o <FIFO>", ["password", "encrypt"], None, data, "fifo", "fifo", envp, enc_bound, ["--env-pass"]),
+            ]
+            for j in jobs1:
+                j["dir"], j["in_len"] = "enc", n
+            with ThreadPoolExecutor(max_workers=len(jobs1)) as ex:
+                r1 = list(ex.map(self.lookahead_job, jobs1))
+            jobs2, r2 = [], []
+            ctp, ctk = r1[0].get("out"), r1[2].get("out")
+            if r1[0]["rc"] == 0 and r1[2]["rc"] == 0 and ctp and ctk:
+                open(P("ct_pass.bin"), "wb").write(ctp)
+                open(P("ct_key.bin"), "wb").write(ctk)
+                jobs2 = [
+                    job("password decrypt <regular file> -> stdout pipe", ["password", "decrypt"], P("ct_pass.bin"), None, "regular", "stdout", envp, dec_bound(36), ["--env-pass"]),
+                    job("password decrypt <regular file> -o <FIFO>", ["password", "decrypt"], P("ct_pass.bin"), None, "regular", "fifo", envp, dec_bound(36), ["--env-pass"]),
+                    job("decrypt <regular file> -> stdout pipe", ["decrypt"], P("ct_key.bin"), None, "regular", "stdout", envr, dec_bound(132), decargs),
+                    job("decrypt <regular file> -o <FIFO>", ["decrypt"], P("ct_key.bin"), None, "regular", "fifo", envr, dec_bound(132), decargs),
+                    job("decrypt <FIFO given as FILE> -o <FIFO>", ["decrypt"], None, ctk, "fifo", "fifo", envr, dec_bound(132), decargs),
+                ]
+                for j, ct in zip(jobs2, (ctp, ctp, ctk, ctk, ctk)):
+                    j["dir"], j["in_len"] = "dec", len(ct)
+                with ThreadPoolExecutor(max_workers=len(jobs2)) as ex:
+                    r2 = list(ex.map(self.lookahead_job, jobs2))
+            else:
+                self.count(ctx, "skipped:file-argument-decrypt(no ciphertext from the encrypt runs)")
+            want_digest = hashlib.sha256(data).hexdigest()
+            for j, res in zip(jobs1 + jobs2, r1 + r2):
+                inp = {"driver": "cli-process", "argv": j["argv"], "env": j["env"],
+                       "input": ("a regular file of %d bytes (SHAKE-256 stream from the run's seed%s), named on the command line" % (j["in_len"], "" if j["dir"] == "enc" else ", encrypted by the CLI"))
+                                if j["input"] == "regular" else "a named FIFO given as FILE, fed by the checker (%d bytes) as fast as the pipe accepts them" % j["in_len"],
+                       "output": "the process's standard-output pipe" if j["output"] == "stdout" else "a named FIFO given with -o",
+                       "consumer": "drains the output in steps of %s, ... bytes and looks at the input position while the process is blocked" % ", ".join(str(x) for x in j["steps"][:8])}
+                self.ran(ctx, "process-file-arg/%s" % j["label"])
+                want_out = (36 if j["label"].startswith("password") else 132) + 32 * nrec + n if j["dir"] == "enc" else n
+                ok_len = res["drained"] == want_out if not (j["dir"] == "enc" and j["input"] == "fifo") else res["drained"] >= want_out
+                if not self.check(ctx, res["rc"] == 0 and ok_len and (j["dir"] == "enc" or res["digest"] == want_digest), inp,
+                                  "the run succeeds and delivers the complete output (%d bytes%s)" % (want_out, ", the original plaintext" if j["dir"] == "dec" else ""),
+                                  "rc=%s, %d bytes delivered, %s" % (res["rc"], res["drained"], res["stderr"][-200:])):
+                    continue
+                w = res["worst"]
+                self.count(ctx, "process-file-arg-samples", res["samples"])
+                if not self.check(ctx, w is not None and res["samples"] >= 5, inp, "the input position of the process could be observed (at least 5 samples)", "%d samples" % res["samples"]):
+                    continue
+                self.check(ctx, w["excess"] <= 0, inp,
+                           "incremental output: at every sample, input consumed - output written (drained by the checker + waiting in the output pipe of %d bytes) <= %d bytes "
+                           "(the chunk being written and two further chunks%s)" % (res.get("cap_out", 0), w["allowed_lead"], "" if j["dir"] == "enc" else ", plus the ciphertext overhead"),
+                           "input consumed %d bytes (%d chunks) while %d bytes of output were written, of which the consumer had taken %d: %d bytes (%.1f chunks) ahead"
+                           % (w["input_consumed"], w["input_consumed"] // BIG, w["output_written"], w["drained_by_the_checker"],
+                              w["input_consumed"] - w["output_written"], (w["input_consumed"] - w["output_written"]) / BIG))
+                self.count(ctx, "process-file-arg-lead-KiB:%s=%d" % (j["label"], (w["input_consumed"] - w["output_written"]) // 1024))
+                self.sample(ctx, {"gen": "process-file-arg", "label": j["label"], "samples": res["samples"], "steps": res["steps"], "worst": w})
+        finally:
+            shutil.rmtree(wd, ignore_errors=True)
 
     def process_streaming(self, ctx):
         MiB = 1 << 20
